@@ -24,6 +24,7 @@ func init() {
 		ruleT2(c, "C14.D8")
 		ruleZ4(c, "C14.D9")
 		ruleD10(c, "C14.D10")
+		ruleD11(c, "C14.D11")
 	}
 }
 
@@ -859,4 +860,88 @@ func canBeShared(P *Program, n *types.Named) bool {
 		}
 	}
 	return false
+}
+
+// ruleD11: giving the inode lock back is the last thing a function does with
+// the inode.  After lockmap.Release(ip.Inum) the next owner of the lock may
+// already be writing ip's fields (AllocInode/InitInode of a CREATE that was
+// handed the number): any later read of ip in the releasing function - even
+// of ip.Inum, to forget the inode in the transaction's table - is a data race.
+func ruleD11(c *Ctx, id string) {
+	V, P, R := c.V, c.P, c.R
+	R.Rule(id, "the release of an inode lock is the last use of the inode: in a function that calls lockmap.Release(x.Inum), no instruction that can execute after the call (without x being assigned anew) uses x", 1)
+	if V.LockRelease == nil {
+		return
+	}
+	n := 0
+	for _, fn := range P.RepoFuncs() {
+		if fn.Blocks == nil {
+			continue
+		}
+		for _, ci := range P.CallsIn(fn, funcIs(V.LockRelease)) {
+			as := nonRecvArgs(ci)
+			if len(as) == 0 {
+				continue
+			}
+			nm, fl, base, _ := loadedField(stripConv(as[0]))
+			if nm != V.Inode || fl != "Inum" || base == nil {
+				continue // a lock named by a plain number (SimpleNFS, LockInode's counterpart): no object involved
+			}
+			n++
+			R.Analysed[FuncName(fn)] = true
+			x := stripConv(base)
+			def, _ := x.(ssa.Instruction)
+			// instructions that can execute after the call
+			var late ssa.Instruction
+			seen := map[*ssa.BasicBlock]bool{}
+			uses := func(in ssa.Instruction) bool {
+				if in == def {
+					return false
+				}
+				for _, op := range in.Operands(nil) {
+					if *op != nil && stripConv(*op) == x {
+						return true
+					}
+				}
+				return false
+			}
+			var scan func(b *ssa.BasicBlock, from int)
+			scan = func(b *ssa.BasicBlock, from int) {
+				for i := from; i < len(b.Instrs); i++ {
+					in := b.Instrs[i]
+					if in == def {
+						return // x is assigned anew: another inode
+					}
+					if _, isD := in.(*ssa.DebugRef); isD {
+						continue
+					}
+					if uses(in) && late == nil {
+						late = in
+					}
+				}
+				for _, s := range b.Succs {
+					if !seen[s] {
+						seen[s] = true
+						scan(s, 0)
+					}
+				}
+			}
+			blk := ci.Block()
+			for i, in := range blk.Instrs {
+				if in == ci {
+					scan(blk, i+1)
+				}
+			}
+			at := P.Pos(ci.Pos())
+			why := ""
+			if late != nil {
+				why = "the inode is used at " + P.Pos(late.Pos()) + " after its lock was given back"
+				if late.Pos() == token.NoPos {
+					why = "the inode is used after its lock was given back (" + late.String() + ")"
+				}
+			}
+			R.Check(late == nil, id, FuncName(ownerOf(fn))+"|nothing touches the inode after Lockmap.Release", at, "the call that gives the lock back is the last use of the inode in the function", "no later use", why+": the next holder of the lock (a CREATE initialising the recycled inode) writes the object while it is still being read")
+		}
+	}
+	R.Check(n > 0, id, "inventory|release of an inode's lock by its number", "?", "the place where inode locks are given back is found", fmt.Sprintf("%d sites", n), "no lockmap.Release(x.Inum) found")
 }
